@@ -550,24 +550,19 @@ class Write(Contract):
                 old = dict(q.w)
                 L = blen(t)
                 k = Wd.TB(L)
-                for f, s in zip(FIELDS, Wd.SORTS):
-                    q.w["T." + f] = fresh("T_" + f, z3.ArraySort(INT, s))
-                q.w["G.rest"] = fresh("G_rest", z3.ArraySort(INT, BYTES))
+                # The head block is stored at the old end.  The tail blocks land beyond
+                # it, at addresses no premise speaks about (every clause is guarded by
+                # a < size): they are modelled as already present in the arrays
+                # ("prophecy"), and described by tails_after below.
+                for i, (f, s) in enumerate(zip(FIELDS, Wd.SORTS)):
+                    q.w["T." + f] = z3.Store(q.w["T." + f], size0, Wd._coerce(d[i], s))
+                q.w["G.rest"] = z3.Store(q.w["G.rest"], size0, t)
                 q.w["T.size"] = size0 + 128 * (1 + k)
                 w1 = W(q)
-                w0 = Wd.Old(old)
-                a = z3.Int("a")
-                for i, f in enumerate(FIELDS):
-                    q.assume(w1.f(f, size0) == Wd._coerce(d[i], Wd.SORTS[i]))
-                    q.assume(z3.ForAll([a], z3.Implies(a < size0, w1.f(f, a) == w0.f(f, a))))
-                q.assume(w1.rest(size0) == t)
                 for nm, f in tails_after(w1, size0):
                     q.assume(f)
-                q.assume(z3.ForAll([a], z3.Implies(a < size0, w1.rest(a) == w0.rest(a))))
                 q.assume(AL(q.w["T.size"]))
                 assume_all(q, I1(q))
-                for c in Wd.fields_in_range(w1):
-                    q.assume(c)
                 o.f["block"] = size0
                 o.f["exists"] = True
                 q.mut += 1
